@@ -53,6 +53,19 @@ claim('C12', 'provenance with closure / Option-combinator expansion (clamp reach
       'generate_state() and the single setters agree on one field map (24 rows). Remainder arithmetic is not decided.',
       'exported MIR; closures and Option::{map_or, map_or_else, unwrap_or_else, ...} interpreted by the rule library', 'DESIGN.md §5 C12')
 
+claim('C10', 'per-configuration type check + configuration-independent body fingerprints (resolved callees/constants/kinds) + guard dataflow under both RefCount bodies',
+      'Decides the structural part: all four feature combinations build; every body that differs between configurations lies inside '
+      'util::strains_vec / util::sync (a cfg(feature)/cfg!(feature) elsewhere shows up as a differing fingerprint of the resolved '
+      'program, not as a grep hit); guard discipline is identical and conflict-free under RefCell and RwLock. The default-feature suite '
+      'never compiles the other three configurations. Numerical equivalence of the two StrainsVec bodies is NOT decided.',
+      'cargo +nightly check per configuration; fingerprint ignores local types and generic arguments by design', 'DESIGN.md §5 C10')
+claim('C11', 'unsafe-operation inventory from MIR with one obligation rule per kind: typestate dataflow, dominating-guard facts, who-may-write index, call-graph reachability, provenance',
+      'Every unsafe operation in user-written unsafe code (17 in the default build) is matched to a rule and the obligation is checked at the '
+      'site on all paths; unknown kinds are reported. Two obligations (count<=len in copy_slice, Vec<StrainsEntry>~Vec<f64> layout) are '
+      'recorded as assumed, which is why the level is `other` and not proof. Miri-style tests only see executed paths; these rules '
+      'quantify over all paths, callers and configurations.',
+      'Safety contracts as written in the source; Rust aliasing model; compiler-generated unsafe is trusted', 'DESIGN.md §5 C11')
+
 PENDING = ['C02', 'C03', 'C04', 'C05', 'C06', 'C07', 'C08', 'C10', 'C11', 'C12', 'C14', 'C15', 'C16', 'C17', 'C18',
            'C19', 'C20']
 
